@@ -222,6 +222,13 @@ def saw_case(name, seed, ns, na, bs, pref, variant):
         kw["candidates"] = np.array(cands)
         kw["annotators"] = A
         bs = max(1, min(bs, int(A.sum())))
+    # annotator performances (they order the annotators of a sample and must never reorder the samples): none /
+    # accuracies in [0, 1) / negative scores such as log-likelihoods (maximum below 1, spread above 1) / large scores
+    apm = ("none", "unit", "negative", "large")[seed % 4]
+    if apm != "none":
+        shape = (na,) if (amode == "none" or seed % 8 < 4) else (len(cands), na)
+        ap = rng.rand(*shape)
+        kw["A_perf"] = ap if apm == "unit" else (-3.0 * ap - 0.05 if apm == "negative" else 1.0 + 7.0 * ap)
     try:
         with warnings.catch_warnings():
             warnings.simplefilter("ignore")
@@ -233,14 +240,15 @@ def saw_case(name, seed, ns, na, bs, pref, variant):
                   {"ev": "OuterSaw", "samples": [int(i) + 1 for i in np.asarray(q)[:, 0]]}]
     except Exception as ex:
         events = [{"ev": "Raised", "exc": "%s: %s" % (type(ex).__name__, str(ex)[:160])}]
-    return {"id": "SingleAnnotatorWrapper(%s)/ns%d-na%d-bs%d-pref%d-%s/seed%d/v%d" % (name, ns, na, bs, pref, amode, seed,
-                                                                                 variant),
+    return {"id": "SingleAnnotatorWrapper(%s)/ns%d-na%d-bs%d-pref%d-%s-aperf:%s/seed%d/v%d" % (
+                name, ns, na, bs, pref, amode, apm, seed, variant),
             "n": ns, "cands": [c + 1 for c in cands], "frac": False, "maxc": [1, 1], "events": events,
             "concrete": {"wrapper": "SingleAnnotatorWrapper", "inner": name, "seed": seed, "X": X.tolist(),
                          "y": [["nan" if v != v else v for v in r] for r in y.tolist()], "batch_size": bs,
                          "n_annotators_per_sample": pref, "variant": variant,
                          "candidates": None if amode == "none" else cands,
-                         "annotators": None if amode == "none" else kw["annotators"].tolist()}}
+                         "annotators": None if amode == "none" else kw["annotators"].tolist(),
+                         "A_perf": kw["A_perf"].tolist() if "A_perf" in kw else None}}
 
 
 def _job(arg):
